@@ -96,7 +96,7 @@ def wf(fields):
     return rm.decode(rm.enc(n, c, k, a, t, p)) is not None and p == p.rstrip() and "\n" not in p and "\r" not in p
 
 
-def search(prop, versions=VERS, first_lines=(), first_msgs=(), budget=4000):
+def search(prop, versions=VERS, first_lines=(), first_msgs=(), budget=12000):
     n = 0
     for v in versions:
         for line in first_lines:
@@ -117,10 +117,14 @@ def search(prop, versions=VERS, first_lines=(), first_msgs=(), budget=4000):
             if bad:
                 return bad, n
         lines = ["", "1;2", "1;2;3", "1;2;3;0", "1;2;3;0;0", "x;2", ";;;;;", "1;1;1;0;0;x;y", "1;1;1;0;0;x\n", " 1 ; 2;1;0;0;x"]
-        for combo in itertools.product(FIELDS[:9], ["0", "255", "x"], ["0", "1", "3", "4", "5"], ["0", "1", "2"], ["0", "3", "x"]):
+        for combo in itertools.product(FIELDS[:9], ["0", "255", "256", "-1", "x"], ["0", "1", "3", "4", "5"], ["0", "1", "2"], ["0", "3", "x"]):
             lines.append(";".join(combo) + ";p")
+        if len(lines) * len(versions) > budget:
+            # a smaller budget thins the pool out evenly instead of cutting its tail off
+            step = -(-len(lines) * len(versions) // budget)
+            lines = lines[:10] + lines[10::step]
         for v in versions:
-            for line in lines[: budget // len(versions)]:
+            for line in lines:
                 r = check_line(v, line)
                 n += 1
                 if r:
@@ -147,6 +151,14 @@ def replay(prop, world, ob):
         lines.append(m["line"])
     if isinstance(m.get("read_line"), str):
         lines.append(m["read_line"])
+    if isinstance(m.get("s"), str):
+        lines.append(m["s"])
+    ints = [m.get(k) for k in ("fn", "fc", "fk", "fa", "ft")]
+    if all(isinstance(x, int) and not isinstance(x, bool) for x in ints):
+        # the field values of the solver's model (int() of a field is an uninterpreted function of its text: the model's text
+        # need not spell the model's numbers, so the line is rebuilt from the numbers)
+        for p in ("p", "", "a;b"):
+            lines.append(";".join(str(x) for x in ints) + ";" + p)
     mm = m.get("m") or m.get("message")
     if isinstance(mm, dict) and all(isinstance(mm.get(f), int) for f in ("node_id", "child_id", "command", "ack", "message_type")):
         base = [mm[f] for f in ("node_id", "child_id", "command", "ack", "message_type")]
@@ -159,6 +171,6 @@ def replay(prop, world, ob):
 
 
 def bounded(prop, tier, seed, rep):
-    found, n = search(prop, VERS, budget=4000 if tier == "quick" else 40000)
+    found, n = search(prop, VERS, budget=12000 if tier == "quick" else 40000)
     return {"label": "bounded", "scope": "lines over the field pool x 5 versions / messages over boundary ids x payload pool x 5 versions",
             "evaluations": n, "native_failure": found}
